@@ -29,20 +29,21 @@ class Panic:
 
 
 class Agg:
-    __slots__ = ('ty', 'fields', 'variant', 'vname')
+    __slots__ = ('ty', 'fields', 'variant', 'vname', 'td')
 
-    def __init__(self, ty, fields=(), variant=None, vname=None):
+    def __init__(self, ty, fields=(), variant=None, vname=None, td=None):
         self.ty = ty
         self.fields = tuple(fields)
         self.variant = variant
         self.vname = vname
+        self.td = td          # type definition (typedefs.TypeDef) when known: disambiguates equally named types
 
     def with_field(self, i, v):
         f = list(self.fields)
         while len(f) <= i:
             f.append(None)
         f[i] = v
-        return Agg(self.ty, f, self.variant, self.vname)
+        return Agg(self.ty, f, self.variant, self.vname, self.td)
 
     def __repr__(self):
         if self.variant is not None:
